@@ -7,7 +7,7 @@ patch=$(cd "$(dirname "$1")" && pwd)/$(basename "$1"); shift
 d=$(mktemp -d /var/tmp/verif-mutrun-XXXXXX)
 git -C /repo worktree add -q --detach "$d/wt" HEAD || exit 2
 trap 'git -C /repo worktree remove --force "$d/wt" >/dev/null 2>&1; rm -rf "$d"' EXIT
-if ! git -C "$d/wt" apply "$patch"; then echo "$(basename $patch): patch does not apply"; exit 2; fi
+if ! git -C "$d/wt" apply "$patch" 2>/dev/null && ! git -C "$d/wt" apply --3way "$patch"; then echo "$(basename $patch): patch does not apply"; exit 2; fi
 for p in "$@"; do
   VERIF_REDUCETIME=${VERIF_REDUCETIME:-0s} VERIF_SHRINKTIME=${VERIF_SHRINKTIME:-5s} VERIF_REPO="$d/wt" VERIF_EVIDENCE_DIR="$d/evidence" VERIF_NEWDIR="$d/new" "$ROOT/check" $p quick > "$d/out-$p.log" 2>&1
   code=$?
